@@ -24,6 +24,7 @@ struct ref_out {
   uint32_t ok, value, nmsg, nred, nterm, nctx;
   uint32_t flags;         /* 1 msg overflow, 2 red overflow, 4 term overflow, 8 stack overflow, 16 step overflow, 32 rr conflict met */
   uint32_t discarded_states, discarded_terms, nshift;
+  uint32_t h, nst, st[MAXST];   /* hashed event log (HASHLOG mode) */
   struct ref_msg msg[RMAXMSG];
   uint32_t red[MAXRED];
   uint32_t tline[MAXTERM], tcol[MAXTERM], tval[MAXTERM];
@@ -37,7 +38,16 @@ static inline int ref_is_ws(uint8_t c, int skip_nl) {
 static inline void ref_advance(const uint8_t* in, unsigned from, unsigned to, uint32_t* line, uint32_t* col) {
   for (unsigned i = from; i < to; i++) { if (in[i] == '\n') { (*line)++; *col = 1; } else (*col)++; }
 }
+static inline uint32_t ref_mix(uint32_t h, uint32_t v) { return ((h << 5) | (h >> 27)) + v + 0x9e3779b9u; }
 static inline void ref_putmsg(struct ref_out* o, uint32_t kind, uint32_t line, uint32_t col, uint32_t a, uint32_t b) {
+#ifdef HASHLOG
+  int stk = (kind == M_SHIFT || kind == M_GOTO || kind == M_RECOVERING_TO);
+  o->h = ref_mix(ref_mix(ref_mix(o->h, kind), line), col);
+  if (stk) { if (o->nst < MAXST) { o->st[o->nst] = a; o->nst++; } else o->flags |= 1u; o->h = ref_mix(o->h, kind == M_SHIFT ? b : 0u); }
+  else o->h = ref_mix(o->h, a);
+  o->nmsg++;
+  return;
+#endif
   if (o->nmsg < RMAXMSG) { struct ref_msg m = { kind, line, col, a, b }; o->msg[o->nmsg] = m; o->nmsg++; } else o->flags |= 1u;
 }
 static inline uint32_t ref_term_value(unsigned term, const uint8_t* in, unsigned pos, unsigned len) {
@@ -49,7 +59,7 @@ static void ref_parse(const uint8_t* in, unsigned n, int opt_ws, int opt_nl, int
   unsigned st[RSTK]; uint32_t val[RSTK], vline[RSTK], vcol[RSTK]; unsigned sp = 0;
   unsigned pos = 0; uint32_t line = 1, col = 1;
   int have = 0, recovery = 0, consume = 0; unsigned term = 0, tlen = 0;
-  struct ref_out z = {0}; *o = z;
+  struct ref_out z = {0}; *o = z; o->h = 2166136261u;
   st[0] = 0; val[0] = 0; vline[0] = 0; vcol[0] = 0;
   for (unsigned step = 0; step < RSTEPS; step++) {
     unsigned la;
@@ -154,6 +164,24 @@ static void ora_positions(const uint32_t* out, const struct ref_out* r) {
     for (unsigned i = 0; i < MAXTERM; i++) if (i < r->nterm) {
       CHECK(out[O_TERM0 + TERM_SLOTS * i] == r->tline[i], "term value carries the true line");
       CHECK(out[O_TERM0 + TERM_SLOTS * i + 1] == r->tcol[i], "term value carries the true column");
+    }
+}
+/* hashed verbose trace: same number of events, same rolling hash over (kind, line, column, argument), and the printed state numbers
+   correspond one-to-one to the reference states */
+static void ora_trace_hash(const uint32_t* out, const struct ref_out* r) {
+  CHECK(out[O_NMSG] == r->nmsg, "verbose trace has as many events as the actions performed");
+  CHECK(out[O_AUX] == r->h, "verbose trace events (kind, position, term / rule / lexeme) are exactly the reference action sequence");
+  CHECK(out[O_AUX + 1] == r->nst, "as many state numbers printed as shifts / gotos / recoveries performed");
+  uint16_t r2s[REF_NSTATES + 1], s2r[REF_NSTATES + 1];
+  for (unsigned i = 0; i <= REF_NSTATES; i++) { r2s[i] = 0xffff; s2r[i] = 0xffff; }
+  if (out[O_AUX + 1] == r->nst)
+    for (unsigned i = 0; i < MAXST; i++) if (i < r->nst) {
+      unsigned rs = out[O_AUX + 2 + i], ss = r->st[i];
+      CHECK(rs < REF_NSTATES, "state number in trace within the table");
+      if (rs < REF_NSTATES) {
+        if (r2s[rs] == 0xffff && s2r[ss] == 0xffff) { r2s[rs] = (uint16_t)ss; s2r[ss] = (uint16_t)rs; }
+        CHECK(r2s[rs] == ss && s2r[ss] == rs, "trace states correspond one-to-one to reference states");
+      }
     }
 }
 /* message logs equal; state numbers (M_SHIFT/M_GOTO/M_RECOVERING_TO argument a) compared up to a bijection */
